@@ -61,7 +61,7 @@ theorem partBy_apply (f : Elem → Bool) (fwd : Bool) (p : Prod) (a : Act) (s : 
     · exact partBy_addPath f s.env v var _ app hx
   | set v val => cases fwd <;> rfl
   | alias k v => cases fwd <;> rfl
-  | dep n o j v x t => rfl
+  | dep n o j v x t kl => rfl
 
 theorem ownPart_apply (m : Name) (fwd : Bool) (p : Prod) (a : Act) (s : St) (hp : p.1 ≠ m) (var : Str) :
     ownPart m (a.apply fwd p s).env var = ownPart m s.env var :=
@@ -126,17 +126,17 @@ leads from `top` to `n` -/
 inductive Within (db : Db) (top : Name) : Nat → Name → Prop where
   | root : Within db top 0 top
   | step {k : Nat} {a n : Name} {d : Decl} {g : Guard} {o j : Bool} {v : Option VerReq} {x : Option VExpr} :
-      Within db top k a → d ∈ db.decls → d.name = a → (g, Act.dep n o j v x t) ∈ d.table → Within db top (k + 1) n
+      Within db top k a → d ∈ db.decls → d.name = a → (g, Act.dep n o j v x t kl) ∈ d.table → Within db top (k + 1) n
 
 theorem within_closedAt (cfg : Cfg) (top : Name) (N : Nat) (hN : cfg.maxDepth = some N) :
     ClosedAt cfg (fun k n => Within cfg.db top k n ∧ k ≤ N) := by
-  intro d hd k hS hmd g n o j v x t hg
+  intro d hd k hS hmd g n o j v x t kl hg
   have hk : k ≠ N := fun e => hmd (by rw [hN, e])
   exact ⟨Within.step hS.1 hd rfl hg, by omega⟩
 
 theorem within_closedAt_unbounded (cfg : Cfg) (top : Name) :
     ClosedAt cfg (fun _ n => ∃ k, Within cfg.db top k n) := by
-  intro d hd k hS _ g n o j v x t hg
+  intro d hd k hS _ g n o j v x t kl hg
   obtain ⟨k', hk'⟩ := hS
   exact ⟨k' + 1, Within.step hk' hd rfl hg⟩
 
